@@ -3,6 +3,7 @@ package vc
 import (
 	"fmt"
 	"go/ast"
+	"go/token"
 	"go/types"
 	"strings"
 )
@@ -158,7 +159,7 @@ func (x *Exec) libCall(key string, fn *types.Func, call *ast.CallExpr, recvExpr 
 			break
 		}
 		s := arg(0)
-		fname := "uf_" + sanitize(key)
+		fname := "uf_" + sanitize(key) + "$0_" + sanitize(string(strSort))
 		x.W.DeclareFun(fname, []Sort{strSort}, strSort)
 		r := T("("+fname+" "+s.S+")", strSort)
 		r.GoT = types.Typ[types.String]
@@ -254,11 +255,25 @@ func (x *Exec) libCall(key string, fn *types.Func, call *ast.CallExpr, recvExpr 
 		for _, a := range call.Args {
 			x.evalMulti(a, env)
 		}
+		// anything reachable through a pointer argument may be written by the library
+		for _, a := range call.Args {
+			if u, ok := ast.Unparen(a).(*ast.UnaryExpr); ok && u.Op == token.AND && isAddressable(u.X) {
+				x.assign(u.X, x.fresh("hv", info.TypeOf(u.X)), env)
+			} else if t := info.TypeOf(a); t != nil {
+				if _, isPtr := t.Underlying().(*types.Pointer); isPtr && isAddressable(a) {
+					if _, isId := ast.Unparen(a).(*ast.Ident); !isId {
+						x.assign(a, x.fresh("hv", t), env)
+					} else {
+						x.assign(a, x.fresh("hv", t), env)
+					}
+				}
+			}
+		}
 		var out []Term
 		for i := 0; i < sig.Results().Len(); i++ {
 			out = append(out, x.fresh(fmt.Sprintf("%s_r%d", fn.Name(), i), sig.Results().At(i).Type()))
 		}
-		x.W.Note("library call abstracted (results havocked): " + key)
+		x.W.Note("library call abstracted (results and pointer arguments havocked): " + key)
 		if recvExpr != nil && isAddressable(recvExpr) {
 			if rv := sig.Recv(); rv != nil {
 				if _, isPtr := rv.Type().(*types.Pointer); isPtr {
